@@ -78,7 +78,7 @@ G1Elems == { El("g1", "v", VRec("a", "L1", D0)), El("g1", "v", VRec("a", "L1", D
              El("g1", "v", VRec("", "L1", D0)),
              El("g1", "v", VRec("a", "L1", M([k \in {"_gid"} |-> N(1)]))),
              El("g1", "e", ERec("e1", "K1", "a", "b", D0)), El("g1", "e", ERec("e1", "K1", "b", "a", D1)),
-             El("g1", "e", ERec("e1", "", "a", "b", D0)),
+             El("g1", "e", ERec("e1", "", "a", "b", D0)), El("g1", "e", ERec("e1", "K1", "", "b", D1)),
              El("g1", "n", None) }
 G2Elems == { El("g2", "v", VRec("a", "L1", D1)), El("g2", "e", ERec("e1", "K1", "a", "a", D0)),
              El("g2", "v", VRec("a", "", D0)) }
